@@ -40,7 +40,8 @@ def run(ck):
                 ck.cat("barely_oversize")
     ck.rule = ("TLC enumerates every sequence of <=5 values in 0..C+2 containing at least one oversize item (every position and multiplicity); ff, ffd, bf, bfd "
                "and bin-completion called on each as list / dict / names+valueof with all ten output types - every call must raise ValueError (also at bin sizes 2^53 and 1e16, "
-               "judged with two-limb comparison); TLC also "
+               "judged with two-limb comparison); request HISTORIES - the same items packed with a scan of bin sizes (descending, ascending, shuffled) in one interpreter - "
+               "are stepped through JScan.tla: an oversize request is refused whatever was asked before; TLC also "
                "enumerates every cbldm call with exactly one invalid argument (bin count, negative item(s), time limit, cardinality bound; each also as numpy float / numpy integer / Fraction) over small valid "
                "inputs, plus the all-valid control; numitems probed on both managers. non-trivial = distinct stimulus")
     traces = run_pack_groups(ck, groups, {"C19"}, "C19 oversize refusal", nontrivial=lambda t: True)
@@ -57,6 +58,27 @@ def run(ck):
     fb = ck.judge("JBigRefuse", tb, {"C19"}, what="C19 oversize refusal at bin sizes 2^53 and 1e16 (two-limb comparison)")
     ck.classify(fb, lambda fl: {"alg": fl["trace"]["res"][fl["e"] - 1]["alg"] if fl["e"] else None, "vals": fl["trace"]["rawvals"], "C": fl["trace"]["rawC"],
                                 "ev": fl["trace"]["res"][fl["e"] - 1] if fl["e"] else None})
+    # request histories: one collection of items, a scan of bin sizes in one interpreter (descending / ascending / shuffled); stepwise trace spec JScan.tla
+    scans = []
+    base = [g["vals"] for g in scope.q_scope(ck, 3 if q else 4, 4, [3], minv=1) if len(g["vals"]) >= 2]
+    base += [[rng.randint(1, 10) for _ in range(rng.randint(2, 6))] for _ in range(150 if q else 6000)]
+    base += [[9, 1, 1, 1], [7, 7, 1], [12, 3, 3, 3, 3]]
+    for i, vals in enumerate(base):
+        top = min(sum(vals), max(vals) + 6)
+        down = list(range(top, max(0, min(vals) - 1), -1))
+        for order in (down, down[::-1], rng.sample(down, len(down))):
+            alg = "bc" if i % 2 == 0 else rng.choice(PACKERS)
+            scans.append({"vals": vals, "Cs": order, "alg": alg, "fmt": rng.choice(["list", "dict", "valueof"]), "ot": rng.choice(["Partition", "Sums", "BinCount", "PartitionAndSumsTuple"])})
+    ts = [t for t in core.pmap(drive.run_scan, scans)]
+    for t in ts:
+        ck.evaluations += len(t["events"]); ck.nontrivial.add(("S", tuple(t["vals"]), tuple(e["C"] for e in t["events"]), t["alg"]))
+        ck.cat("scan_requests_oversize", sum(1 for e in t["events"] if max(t["vals"]) > e["C"]))
+        ck.cat("scan_requests_answered", sum(1 for e in t["events"] if e["out"] == "ret"))
+        t["events"] = [e for e in t["events"] if e["out"] != "timeout"]
+    ck.sample({"scan": {k: ts[0][k] for k in ("vals", "alg", "fmt", "ot")}, "first_events": ts[0]["events"][:4]})
+    fs = ck.judge("JScan", ts, {"C19"}, what="C19 request histories (capacity scans), stepwise", chunk=4000, count_events=lambda t: len(t["events"]))
+    ck.classify(fs, lambda fl: {"alg": fl["trace"]["alg"], "vals": fl["trace"]["vals"], "fmt": fl["trace"]["fmt"], "ot": fl["trace"]["ot"],
+                                "history": fl["trace"]["events"][:fl["e"]]})
     r = ck.mc("RefuseGen", "CONSTANTS MaxN = %d MaxV = 3\nINIT Init\nNEXT Next\n" % (3 if q else 4), "GEN cbldm argument grid")
     stim = sorted(r.emitted, key=lambda e: (e["kind"], e["arg"], e["vals"]))
     tr = core.pmap(drive.run_refuse, stim)
